@@ -1115,7 +1115,7 @@ func c2NumericEncoders(c *Ctx, rule string) {
 			switch x := v.(type) {
 			case *ssa.Parameter:
 				if x == src {
-					if strings.HasSuffix(x.Type().String(), "time.Duration") {
+					if strings.HasSuffix(TStr(x.Type()), "time.Duration") {
 						return "n"
 					}
 					return "t"
@@ -1141,7 +1141,7 @@ func c2NumericEncoders(c *Ctx, rule string) {
 				case b != nil && (b.Kind() == types.Int64 || b.Kind() == types.Int):
 					return in
 				}
-				return "conv[" + x.Type().String() + "](" + in + ")"
+				return "conv[" + TStr(x.Type()) + "](" + in + ")"
 			case *ssa.BinOp:
 				a, bb := norm(st, x.X, d+1), norm(st, x.Y, d+1)
 				switch x.Op {
